@@ -8,10 +8,13 @@ import (
 	"fmt"
 	"os"
 	"os/exec"
+	"regexp"
 	"runtime"
 	"sort"
+	"strconv"
 	"strings"
 	"sync"
+	"sync/atomic"
 	"syscall"
 	"time"
 
@@ -40,7 +43,7 @@ func init() {
 	monitors["C15"] = &Monitor{Plan: c15Plan, Run: c15Run, Replay: nil}
 }
 
-var c15Scenarios = []string{"mnemonic", "xmss-verify", "addresses", "dilithium-verify", "dilithium-sign-shared", "xmss-private-keys", "js-wrappers", "mixed"}
+var c15Scenarios = []string{"mnemonic", "xmss-verify", "addresses", "dilithium-verify", "dilithium-sign-shared", "xmss-private-keys", "js-wrappers", "mixed", "fresh-keys"}
 
 func c15Plan(tier string, seed uint64) (jobs []rt.Job) {
 	reps := 3
@@ -100,15 +103,25 @@ func bbool(b bool) []byte {
 // c15Do executes a call and returns the digest of its outcome.
 func c15Do(c *c15Call) string {
 	var out [][]byte
+	// Every byte slice and array handed to the library is private to this call. Once the call has returned
+	// (and its outcome has been digested) the caller owns them again and rewrites them, as a caller that
+	// reuses its buffers would: a library goroutine that outlives the call and still reads them is a data
+	// race, which the race detector then reports.
+	var held [][]byte
+	arg := func(i int) []byte {
+		b := c.arg(i)
+		held = append(held, b)
+		return b
+	}
 	o := rt.Call(func() {
 		switch c.Fn {
 		case "misc.SeedBinToMnemonic":
 			var a [48]byte
-			copy(a[:], c.arg(0))
+			copy(a[:], arg(0))
 			out = [][]byte{[]byte(misc.SeedBinToMnemonic(a))}
 		case "misc.ExtendedSeedBinToMnemonic":
 			var a [51]byte
-			copy(a[:], c.arg(0))
+			copy(a[:], arg(0))
 			out = [][]byte{[]byte(misc.ExtendedSeedBinToMnemonic(a))}
 		case "misc.MnemonicToSeedBin":
 			a := misc.MnemonicToSeedBin(c.Str)
@@ -118,39 +131,39 @@ func c15Do(c *c15Call) string {
 			out = [][]byte{a[:]}
 		case "xmss.Verify":
 			var pk [67]byte
-			copy(pk[:], c.arg(2))
-			out = [][]byte{bbool(xmss.Verify(c.arg(0), c.arg(1), pk))}
+			copy(pk[:], arg(2))
+			out = [][]byte{bbool(xmss.Verify(arg(0), arg(1), pk))}
 		case "xmss.VerifyW":
 			var pk [67]byte
-			copy(pk[:], c.arg(2))
-			out = [][]byte{bbool(xmss.VerifyWithCustomWOTSParamW(c.arg(0), c.arg(1), pk, c.W))}
+			copy(pk[:], arg(2))
+			out = [][]byte{bbool(xmss.VerifyWithCustomWOTSParamW(arg(0), arg(1), pk, c.W))}
 		case "xmss.GetXMSSAddressFromPK":
 			var pk [67]byte
-			copy(pk[:], c.arg(0))
+			copy(pk[:], arg(0))
 			a := xmss.GetXMSSAddressFromPK(pk)
 			out = [][]byte{a[:]}
 		case "xmss.GetLegacyXMSSAddressFromPK":
 			var pk [67]byte
-			copy(pk[:], c.arg(0))
+			copy(pk[:], arg(0))
 			a := xmss.GetLegacyXMSSAddressFromPK(pk)
 			out = [][]byte{a[:]}
 		case "xmss.IsValidXMSSAddress":
 			var a [20]byte
-			copy(a[:], c.arg(0))
+			copy(a[:], arg(0))
 			out = [][]byte{bbool(xmss.IsValidXMSSAddress(a))}
 		case "xmss.IsValidLegacyXMSSAddress":
 			var a [39]byte
-			copy(a[:], c.arg(0))
+			copy(a[:], arg(0))
 			out = [][]byte{bbool(xmss.IsValidLegacyXMSSAddress(a))}
 		case "xmss.Descriptor":
-			d := xmss.NewQRLDescriptorFromBytes(c.arg(0))
+			d := xmss.NewQRLDescriptorFromBytes(arg(0))
 			b := d.GetBytes()
 			d2 := xmss.NewQRLDescriptor(d.GetHeight(), d.GetHashFunction(), d.GetSignatureType(), d.GetAddrFormatType())
 			b2 := d2.GetBytes()
 			out = [][]byte{b[:], b2[:], {d.GetHeight(), byte(d.GetHashFunction()), byte(d.GetSignatureType()), byte(d.GetAddrFormatType())}}
 		case "xmss.KeyLife":
 			var s [48]byte
-			copy(s[:], c.arg(0))
+			copy(s[:], arg(0))
 			k := xmss.NewXMSSFromSeed(s, uint8(c.H), xmss.HashFunction(c.HF), common.SHA256_2X)
 			pk := k.GetPK()
 			ad := k.GetAddress()
@@ -168,42 +181,44 @@ func c15Do(c *c15Call) string {
 		case "dilithium.Verify":
 			var s [4595]byte
 			var pk [2592]byte
-			copy(s[:], c.arg(1))
-			copy(pk[:], c.arg(2))
-			out = [][]byte{bbool(dilithium.Verify(c.arg(0), s, &pk))}
+			copy(s[:], arg(1))
+			copy(pk[:], arg(2))
+			held = append(held, pk[:])
+			out = [][]byte{bbool(dilithium.Verify(arg(0), s, &pk))}
 		case "dilithium.Open":
 			var pk [2592]byte
-			copy(pk[:], c.arg(1))
-			m := dilithium.Open(c.arg(0), &pk)
+			copy(pk[:], arg(1))
+			held = append(held, pk[:])
+			m := dilithium.Open(arg(0), &pk)
 			out = [][]byte{m, bbool(m == nil)}
 		case "dilithium.GetDilithiumAddressFromPK":
 			var pk [2592]byte
-			copy(pk[:], c.arg(0))
+			copy(pk[:], arg(0))
 			a := dilithium.GetDilithiumAddressFromPK(pk)
 			out = [][]byte{a[:]}
 		case "dilithium.IsValidDilithiumAddress":
 			var a [20]byte
-			copy(a[:], c.arg(0))
+			copy(a[:], arg(0))
 			out = [][]byte{bbool(dilithium.IsValidDilithiumAddress(a))}
 		case "dilithium.SignShared":
-			s, err := c15Shared.Sign(c.arg(0))
+			s, err := c15Shared.Sign(arg(0))
 			out = [][]byte{s[:], []byte(fmt.Sprint(err))}
 		case "dilithium.SealShared":
-			s, err := c15Shared.Seal(c.arg(0))
+			s, err := c15Shared.Seal(arg(0))
 			pk := c15Shared.GetPK()
 			ad := c15Shared.GetAddress()
 			out = [][]byte{s, []byte(fmt.Sprint(err)), pk[:32], ad[:], []byte(c15Shared.GetMnemonic())}
 		case "dilithium.KeyLife":
 			var s [48]byte
-			copy(s[:], c.arg(0))
+			copy(s[:], arg(0))
 			d, err := dilithium.NewDilithiumFromSeed(s)
 			if err != nil {
 				out = [][]byte{[]byte(err.Error())}
 				return
 			}
 			pk, sk := d.GetPK(), d.GetSK()
-			sg, _ := d.Sign(c.arg(1))
-			out = [][]byte{pk[:], sk[:], sg[:], bbool(dilithium.Verify(c.arg(1), sg, &pk))}
+			sg, _ := d.Sign(arg(1))
+			out = [][]byte{pk[:], sk[:], sg[:], bbool(dilithium.Verify(arg(1), sg, &pk))}
 		case "dilithium.NewRoundTrip": // fresh randomness: only the deterministic facts are digested
 			d, err := dilithium.New()
 			if err != nil {
@@ -211,23 +226,23 @@ func c15Do(c *c15Call) string {
 				return
 			}
 			pk := d.GetPK()
-			sg, _ := d.Sign(c.arg(0))
+			sg, _ := d.Sign(arg(0))
 			d2, _ := dilithium.NewDilithiumFromSeed(d.GetSeed())
-			out = [][]byte{bbool(dilithium.Verify(c.arg(0), sg, &pk)), bbool(d2.GetPK() == pk), bbool(dilithium.IsValidDilithiumAddress(d.GetAddress()))}
+			out = [][]byte{bbool(dilithium.Verify(arg(0), sg, &pk)), bbool(d2.GetPK() == pk), bbool(dilithium.IsValidDilithiumAddress(d.GetAddress()))}
 		case "xmss.FromHeightRoundTrip":
 			k := xmss.NewXMSSFromHeight(uint8(c.H), xmss.HashFunction(c.HF))
 			pk := k.GetPK()
-			sg, _ := k.Sign(c.arg(0))
+			sg, _ := k.Sign(arg(0))
 			k2 := xmss.NewXMSSFromExtendedSeed(k.GetExtendedSeed())
-			out = [][]byte{bbool(xmss.Verify(c.arg(0), sg, pk)), bbool(k2.GetPK() == pk), bbool(xmss.IsValidXMSSAddress(k.GetAddress()))}
+			out = [][]byte{bbool(xmss.Verify(arg(0), sg, pk)), bbool(k2.GetPK() == pk), bbool(xmss.IsValidXMSSAddress(k.GetAddress()))}
 		case "js.DilithiumVerify":
-			out = [][]byte{bbool(dilithiumjs.DilithiumVerify(c.arg(0), c.Args[1], c.Args[2]))}
+			out = [][]byte{bbool(dilithiumjs.DilithiumVerify(arg(0), c.Args[1], c.Args[2]))}
 		case "js.GetDilithiumAddressFromPK":
 			out = [][]byte{[]byte(dilithiumjs.GetDilithiumAddressFromPK(c.Str))}
 		case "js.IsValidDilithiumAddress":
 			out = [][]byte{bbool(dilithiumjs.IsValidDilithiumAddress(c.Str))}
 		case "js.XMSSVerify":
-			out = [][]byte{bbool(xmssjs.XMSSVerify(string(c.arg(0)), c.Args[1], c.Args[2]))}
+			out = [][]byte{bbool(xmssjs.XMSSVerify(string(arg(0)), c.Args[1], c.Args[2]))}
 		case "js.GetXMSSAddressFromPK":
 			out = [][]byte{[]byte(xmssjs.GetXMSSAddressFromPK(c.Str))}
 		case "js.IsValidXMSSAddress":
@@ -236,7 +251,13 @@ func c15Do(c *c15Call) string {
 			panic("c15: unknown call " + c.Fn)
 		}
 	})
-	return c15Digest(o, out...)
+	dg := c15Digest(o, out...)
+	for _, b := range held {
+		for i := range b {
+			b[i] ^= 0xA5
+		}
+	}
+	return dg
 }
 
 const c15SharedSeedLabel = "C15/shared-dilithium-key"
@@ -409,7 +430,17 @@ func c15Table(sc string, seed uint64, rep int) (calls []c15Call) {
 		}
 		add(c15Call{Fn: "js.IsValidXMSSAddress", Str: "nothex"})
 	}
+	// every call draws fresh randomness and builds a new key: after the barrier all goroutines are inside the
+	// constructors (NewXMSSFromHeight / dilithium.New) at the same moment
+	freshKeys := func() {
+		for i := 0; i < 6; i++ {
+			add(c15Call{Fn: "xmss.FromHeightRoundTrip", Args: []string{hx(rng.Bytes(3 + i))}, H: 4, HF: i % 3})
+		}
+		add(c15Call{Fn: "dilithium.NewRoundTrip", Args: []string{hx(rng.Bytes(9))}})
+	}
 	switch sc {
+	case "fresh-keys":
+		freshKeys()
 	case "mnemonic":
 		mnemonic()
 	case "xmss-verify":
@@ -467,6 +498,7 @@ func init() {
 // expiry alone is never a verdict: a violation needs goroutines that are blocked (mutex, channel, select,
 // semaphore) with library frames on their stacks.
 const c15Patience = 8 * time.Minute
+const c15Stall = 150 * time.Second
 
 func tailStr(s string, n int) string {
 	if len(s) > n {
@@ -479,12 +511,26 @@ func tailStr(s string, n int) string {
 // go-qrllib frames on its stack?
 func blockedInLibrary(dump string) bool { return libraryFrames(dump) != "" }
 
-func libraryFrames(dump string) string {
+func libraryFrames(dump string) string { return libraryFramesMin(dump, 0) }
+
+var c15Minutes = regexp.MustCompile(`, (\d+) minutes`)
+
+// libraryFramesMin: goroutines waiting with library frames, for at least minMinutes according to the runtime's own annotation
+func libraryFramesMin(dump string, minMinutes int) string {
 	var out []string
 	for _, g := range strings.Split(dump, "\n\n") {
 		head := g
 		if i := strings.Index(g, "\n"); i > 0 {
 			head = g[:i]
+		}
+		if minMinutes > 0 {
+			m := c15Minutes.FindStringSubmatch(head)
+			if m == nil {
+				continue
+			}
+			if n, _ := strconv.Atoi(m[1]); n < minMinutes {
+				continue
+			}
 		}
 		waiting := strings.Contains(head, "[semacquire") || strings.Contains(head, "[sync.Mutex.Lock") || strings.Contains(head, "[chan receive") ||
 			strings.Contains(head, "[chan send") || strings.Contains(head, "[select") || strings.Contains(head, "[sync.RWMutex") || strings.Contains(head, "[sync.Cond.Wait") || strings.Contains(head, "[sync.WaitGroup.Wait")
@@ -541,6 +587,9 @@ func c15Run(j *rt.Job, seed uint64, r *rt.Rec) {
 	// 2. per-goroutine operation orders (seeded), decided before the barrier
 	rng := rt.NewRand(seed, j.ID)
 	perG := 12
+	if sc == "fresh-keys" {
+		perG = 3
+	}
 	if sc == "xmss-private-keys" {
 		perG = 3 // each call is a whole key life (keygen, signatures, a jump, verifications)
 		if G > 24 {
@@ -569,6 +618,7 @@ func c15Run(j *rt.Job, seed uint64, r *rt.Rec) {
 	}
 	// 3. cold start: all goroutines wait on one barrier, then make their first-ever calls simultaneously
 	obs := make([][]c15Obs, G) // sharded: each goroutine appends to its own slice only
+	var completed int64
 	start := make(chan struct{})
 	var wg sync.WaitGroup
 	for g := 0; g < G; g++ {
@@ -580,6 +630,7 @@ func c15Run(j *rt.Job, seed uint64, r *rt.Rec) {
 			for k, ci := range orders[g] {
 				got := c15Do(&calls[ci])
 				mine = append(mine, c15Obs{g, k, ci, got, time.Now().UnixNano()})
+				atomic.AddInt64(&completed, 1)
 			}
 			obs[g] = mine
 		}(g)
@@ -587,9 +638,39 @@ func c15Run(j *rt.Job, seed uint64, r *rt.Rec) {
 	close(start)
 	allDone := make(chan struct{})
 	go func() { wg.Wait(); close(allDone) }()
-	select {
-	case <-allDone:
-	case <-time.After(c15Patience):
+	// Waiting: the patience limit applies in any case; earlier than that the goroutines are inspected only when
+	// not a single call in the whole process has completed for c15Stall, and then only goroutines that the
+	// runtime reports as waiting for at least two minutes with library frames on their stacks count.
+	expired, early := false, ""
+	deadline := time.After(c15Patience)
+	tick := time.NewTicker(10 * time.Second)
+	last, lastAt := int64(0), time.Now()
+wait:
+	for {
+		select {
+		case <-allDone:
+			break wait
+		case <-deadline:
+			expired = true
+			break wait
+		case <-tick.C:
+			if n := atomic.LoadInt64(&completed); n != last {
+				last, lastAt = n, time.Now()
+			} else if time.Since(lastAt) > c15Stall {
+				buf := make([]byte, 1<<22)
+				if fr := libraryFramesMin(string(buf[:runtime.Stack(buf, true)]), 2); fr != "" {
+					early = fr
+					break wait
+				}
+			}
+		}
+	}
+	tick.Stop()
+	if early != "" {
+		r.Violate("C15/calls-never-return", fmt.Sprintf("scenario %s with %d goroutines: no call completed for %s and goroutines have been blocked inside the library for minutes (deadlock or lost wake-up)", sc, G, c15Stall), jobCase(j), "all calls return", tailStr(early, 1500))
+		return
+	}
+	if expired {
 		buf := make([]byte, 1<<22)
 		dump := string(buf[:runtime.Stack(buf, true)])
 		if blockedInLibrary(dump) {
